@@ -339,8 +339,12 @@ fn build_respan_block_request<E: FieldElement<BaseField = Felt>>(
         + alphas[2].mul_base(addr_nxt - ONE)
         + alphas[3].mul_base(ZERO);
 
-    let state = &main_trace.chiplet_hasher_state(row - 2)[CAPACITY_LEN..];
-    let state_nxt = &main_trace.chiplet_hasher_state(row - 1)[CAPACITY_LEN..];
+    // the new batch is absorbed between the last row of the previous permutation (the row with
+    // address `addr_nxt - 1`) and the first row of the next one; hasher rows are indexed from 0
+    // while hasher addresses start at 1
+    let hasher_row = (addr_nxt.as_int() - 2) as usize;
+    let state = &main_trace.chiplet_hasher_state(hasher_row)[CAPACITY_LEN..];
+    let state_nxt = &main_trace.chiplet_hasher_state(hasher_row + 1)[CAPACITY_LEN..];
 
     header + build_value(&alphas[8..16], state_nxt) - build_value(&alphas[8..16], state)
 }
